@@ -48,7 +48,7 @@ func usMember(lo uintSet64, hi []uintSet64, i uint) bool {
 
 //@ func (*uintSet).has
 //@ theory bv
-//@ property C08 C04 C20
+//@ property C08 C04 C02 C20
 //@ requires s != nil
 //@ ensures result == usMember(s.lo, s.hi, i)
 
@@ -58,7 +58,7 @@ func usMember(lo uintSet64, hi []uintSet64, i uint) bool {
 //@ func (*uintSet).insert
 //@ noexec the `others` clause quantifies over 2^41 naturals
 //@ theory bv
-//@ property C08 C04 C20
+//@ property C08 C04 C02 C20
 //@ requires s != nil && i < 1<<40
 //@ requires spare: vForall(len(s.hi), cap(s.hi), func(k int) bool { return s.hi[:cap(s.hi)][k] == 0 })
 //@ modifies s.lo, s.hi, s.hi[:cap(s.hi)]
